@@ -9,6 +9,7 @@ import Verif.Proofs.C09SvgMain
 import Verif.Proofs.C09Css
 import Verif.Proofs.C09Html
 import Verif.Proofs.C09Js
+import Verif.Proofs.C09JsEmbed
 /-!
 # C09 — accepted input yields syntactically valid output that is accepted again
 
@@ -320,5 +321,21 @@ theorem js_expr_relex : type_of% @Verif.Proofs.C09Js.js_expr_relex := @Verif.Pro
     the bytes of the statement printer model are read back as exactly the tokens written -/
 theorem js_print_relex_partial : type_of% @Verif.Proofs.C09Js.js_print_relex_partial :=
   @Verif.Proofs.C09Js.js_print_relex_partial
+
+/-- **JS inside HTML, writer level**: for every well-formed, goal-consistent token list of the C01 alphabet the bytes
+    of the JS writer model contain neither an appropriate end tag of `script` (no `</` at all) nor `<!--` -/
+theorem js_output_no_markup : type_of% @Verif.Proofs.C09JsEmbed.js_output_no_markup :=
+  @Verif.Proofs.C09JsEmbed.js_output_no_markup
+
+/-- **JS inside HTML, the contract discharged**: the JS fragment printer (any parser function, guarded statement
+    printer, pass-through otherwise) satisfies the contract `SubKeeps "script"` of the HTML minifier model -/
+theorem js_script_embed_keeps : type_of% @Verif.Proofs.C09JsEmbed.js_script_embed_keeps :=
+  @Verif.Proofs.C09JsEmbed.js_script_embed_keeps
+
+/-- **Embedded languages, composed**: an HTML `script` element whose payload is minified by the JS fragment printer is
+    read back by the HTML tokenizer as character tokens equal to the printer's output byte for byte, followed by the
+    element's end tag -/
+theorem html_script_with_js_fragment : type_of% @Verif.Proofs.C09JsEmbed.html_script_with_js_fragment :=
+  @Verif.Proofs.C09JsEmbed.html_script_with_js_fragment
 
 end Verif.Props.C09
